@@ -712,12 +712,38 @@ pub fn run_case<T: El, N: ArrayLength>(c: &Case) -> (Out, Vec<ARec>, bool) {
 
 pub type Lattice = (U0, U1, U2, U3, U8, U16, U33, U1024);
 pub const LATTICE: [usize; 8] = [0, 1, 2, 3, 8, 16, 33, 1024];
+/// lengths at which the array itself is exactly 64 KiB (8-byte elements x 8192, 4-byte x 16384) or more (8-byte x 10000): size-dependent
+/// allocation strategies; a reduced operation list (`enumerate_big`)
+pub const BIG: [usize; 3] = [8192, 16384, 10000];
+
+pub fn enumerate_big(mut emit: impl FnMut(Case)) {
+    // (kind, N): 8-byte tracked elements x 8192 and 4-byte plain elements x 16384 are both exactly 64 KiB,
+    // 8-byte tracked x 10000 is above it.
+    // Operations with two element kinds (17, 18) are left out: the identity ranges of HeapCase.v assume N < 2000.
+    for (kind, n) in [(0i128, BIG[0]), (2, BIG[1]), (0, BIG[2])] {
+        let base = |op: i128| Case { op, kind, n, l: n, spare: 0, pan: -1, fail: -1, aux: 0 };
+        for op in [0i128, 1, 2, 3, 4, 8, 9, 10, 14] {
+            emit(base(op));
+        }
+        emit(Case { aux: (n / 2) as i128, ..base(11) });
+        for op in [5i128, 6, 15, 16] {
+            for pan in [-1i64, (n / 2) as i64] {
+                emit(Case { pan, ..base(op) });
+            }
+        }
+        for op in [7i128, 12] {
+            for aux in [0i128, 1] {
+                emit(Case { aux, ..base(op) });
+            }
+        }
+    }
+}
 
 pub fn run_dyn(c: &Case) -> (Out, Vec<ARec>, bool) {
     fn by_len<T: El>(c: &Case) -> (Out, Vec<ARec>, bool) {
         harness::dispatch_len!(
             c.n,
-            [U0, U1, U2, U3, U8, U16, U33, U1024],
+            [U0, U1, U2, U3, U8, U16, U33, U1024, U8192, U10000, U16384],
             |N| run_case::<T, N>(c),
             panic!("length {} not monomorphised", c.n)
         )
